@@ -2408,23 +2408,36 @@ var g = &grammar{
 							pos:  position{line: 499, col: 20, offset: 15344},
 							name: "__",
 						},
-						&ruleRefExpr{
-							pos:  position{line: 499, col: 23, offset: 15347},
-							name: "PrefixToken",
-						},
-						&zeroOrMoreExpr{
-							pos: position{line: 499, col: 35, offset: 15359},
-							expr: &seqExpr{
-								pos: position{line: 499, col: 36, offset: 15360},
-								exprs: []interface{}{
-									&litMatcher{
-										pos:        position{line: 499, col: 36, offset: 15360},
-										val:        ".",
-										ignoreCase: false,
-									},
-									&ruleRefExpr{
-										pos:  position{line: 499, col: 40, offset: 15364},
-										name: "PrefixToken",
+						&labeledExpr{
+							pos:   position{line: 499, col: 23, offset: 15347},
+							label: "prefix",
+							expr: &actionExpr{
+								pos: position{line: 499, col: 31, offset: 15355},
+								run: (*parser).callonPrefix6,
+								expr: &seqExpr{
+									pos: position{line: 499, col: 31, offset: 15355},
+									exprs: []interface{}{
+										&ruleRefExpr{
+											pos:  position{line: 499, col: 31, offset: 15355},
+											name: "PrefixToken",
+										},
+										&zeroOrMoreExpr{
+											pos: position{line: 499, col: 43, offset: 15367},
+											expr: &seqExpr{
+												pos: position{line: 499, col: 44, offset: 15368},
+												exprs: []interface{}{
+													&litMatcher{
+														pos:        position{line: 499, col: 44, offset: 15368},
+														val:        ".",
+														ignoreCase: false,
+													},
+													&ruleRefExpr{
+														pos:  position{line: 499, col: 48, offset: 15372},
+														name: "PrefixToken",
+													},
+												},
+											},
+										},
 									},
 								},
 							},
@@ -3768,15 +3781,24 @@ func (p *parser) callonEndOfScopeError1() (interface{}, error) {
 	return p.cur.onEndOfScopeError1()
 }
 
-func (c *current) onPrefix1() (interface{}, error) {
-	prefix := strings.TrimSpace(strings.TrimPrefix(string(c.text), "prefix"))
-	return newScopePrefix(prefix)
+func (c *current) onPrefix6() (interface{}, error) {
+	return strings.TrimSpace(string(c.text)), nil
+}
+
+func (p *parser) callonPrefix6() (interface{}, error) {
+	stack := p.vstack[len(p.vstack)-1]
+	_ = stack
+	return p.cur.onPrefix6()
+}
+
+func (c *current) onPrefix1(prefix interface{}) (interface{}, error) {
+	return newScopePrefix(prefix.(string))
 }
 
 func (p *parser) callonPrefix1() (interface{}, error) {
 	stack := p.vstack[len(p.vstack)-1]
 	_ = stack
-	return p.cur.onPrefix1()
+	return p.cur.onPrefix1(stack["prefix"])
 }
 
 func (c *current) onOperation1(docstr, name, typ, annotations interface{}) (interface{}, error) {
